@@ -33,6 +33,8 @@ type candCase struct {
 	Sig     h.B
 	HasInts bool
 	R, S    string // signed hexadecimal
+
+	Args uint64 // argument discipline (nil / empty / buf[:0] flavours, spare capacity, scribbling), see argset
 }
 
 func (b *base) cand(kind string) candCase {
@@ -82,7 +84,7 @@ func checkCand(c candCase, rec *h.Rec) error {
 	if !pubOK {
 		rec.Label("pub-invalid")
 	}
-	v := &vctx{pub: libPub(pub)}
+	v := &vctx{pub: libPub(pub), args: newArgs(c.Args, rec)}
 	refused := false
 	if c.DigestMode {
 		if len(c.Digest) < 32 {
@@ -168,7 +170,11 @@ func checkCand(c candCase, rec *h.Rec) error {
 			if !ep.ok(v) {
 				continue
 			}
-			if got := ep.f(v, c.Sig); got != w {
+			got, aerr := ep.call(v, c.Sig)
+			if aerr != nil {
+				return aerr
+			}
+			if got != w {
 				return verdictErr(ep.name, got, w, what)
 			}
 		}
@@ -178,7 +184,11 @@ func checkCand(c candCase, rec *h.Rec) error {
 				if !ep.ok(v) {
 					continue
 				}
-				if got := ep.f(v, r, s); got != w {
+				got, aerr := ep.call(v, r, s)
+				if aerr != nil {
+					return aerr
+				}
+				if got != w {
 					return verdictErr(ep.name, got, w, what)
 				}
 			}
@@ -203,7 +213,11 @@ func checkCand(c candCase, rec *h.Rec) error {
 			if !ep.ok(v) {
 				continue
 			}
-			if got := ep.f(v, r, s); got != w {
+			got, aerr := ep.call(v, r, s)
+			if aerr != nil {
+				return aerr
+			}
+			if got != w {
 				return verdictErr(ep.name, got, w, what)
 			}
 		}
@@ -417,6 +431,43 @@ func famInts(b *base, emit func(candCase)) {
 	emit(b.cand("both:=0").withRS(bi(0), bi(0)).expect(false))
 	emit(b.cand("s:=n-r (t=0)").withRS(r, sub(bigN, r)).expect(false))
 	emit(b.cand("huge").withRS(new(big.Int).Lsh(r, 1200), s).expect(false))
+	// strict DER whose SEQUENCE / INTEGER length fields grow an octet: content of
+	// 127/128, 255/256 and 65535/65536 bytes (short form -> 0x81 -> 0x82 -> 0x83)
+	sLen := len(derInt(s))
+	for _, total := range []int{127, 128, 255, 256, 65535, 65536} {
+		// r = 0x01 followed by zero octets, sized so that the SEQUENCE content is exactly total bytes
+		for rl := total - sLen - 4; rl <= total-sLen-2; rl++ {
+			cand := new(big.Int).Lsh(one, uint(8*(rl-1)))
+			if sig := derSig(cand, s); lenOfSeqContent(sig) == total {
+				emit(b.cand(fmt.Sprintf("der-length-boundary:%d", total)).withSig(sig).expect(false))
+			}
+		}
+	}
+}
+
+// lenOfSeqContent returns the content length of the outer TLV of a strict DER string.
+func lenOfSeqContent(sig []byte) int {
+	_, body, _, err := derTLV(sig)
+	if err != nil {
+		return -1
+	}
+	return len(body)
+}
+
+// famFlavours: zero-length arguments in their three forms (nil, []byte{},
+// buf[:0] of a non-empty buffer), with and without scribbling: the empty
+// signature, and the valid signature next to whatever of uid / msg is empty.
+func famFlavours(b *base, emit func(candCase)) {
+	for _, args := range []uint64{0x4444444444444444, 0x1111111111111111, 0x2222222222222222, 0x6666666666666666} {
+		for _, scr := range []uint64{0, argScribble} {
+			c := b.cand("empty-signature").withSig(nil).reenc().expect(false)
+			c.Args = args | scr
+			emit(c)
+			c = b.cand("valid-with-arg-flavours").withRS(b.R, b.S).expect(true)
+			c.Args = args | scr
+			emit(c)
+		}
+	}
 }
 
 func famRandomRS(b *base, seed uint64, count int, emit func(candCase)) {
@@ -717,6 +768,20 @@ func honestBases(seed uint64, offset, count int) []base {
 	return out
 }
 
+// withArgs gives three of four enumerated candidates a pseudo-random argument
+// discipline word (half of those with scribbling); candidates that already
+// carry one, and every fourth, are left alone.
+func withArgs(emit func(candCase)) func(candCase) {
+	i := uint64(0)
+	return func(c candCase) {
+		i++
+		if c.Args == 0 && i%4 != 0 {
+			c.Args = gen.Mix(h.Seed, i, 0xa4) | argFlavoured
+		}
+		emit(c)
+	}
+}
+
 // ---------------------------------------------------------------- tests
 
 // TestC06_Mutations: for a handful of honest signatures (all key classes, id
@@ -725,10 +790,12 @@ func honestBases(seed uint64, offset, count int) []base {
 func TestC06_Mutations(t *testing.T) {
 	nb := h.Scale(4, 18)
 	h.Sweep(t, h.P{Name: "mutations"}, func(emit func(candCase)) {
+		emit = withArgs(emit)
 		for i, b := range honestBases(h.Seed, 0, nb) {
 			b := b
 			s := gen.Mix(h.Seed, uint64(i), 1234)
 			famValid(&b, emit)
+			famFlavours(&b, emit)
 			famReenc(&b, emit)
 			famInts(&b, emit)
 			famCross(&b, s, emit)
@@ -746,6 +813,7 @@ func TestC06_Mutations(t *testing.T) {
 func TestC06_Crafted(t *testing.T) {
 	rounds := h.Scale(2, 12)
 	h.Sweep(t, h.P{Name: "crafted"}, func(emit func(candCase)) {
+		emit = withArgs(emit)
 		for i := 0; i < rounds; i++ {
 			s := gen.Mix(h.Seed, uint64(i), 4321)
 			ds := edgeScalars(s)
@@ -779,6 +847,7 @@ func TestC06_SubstExhaustive(t *testing.T) {
 	nb := h.Scale(1, 6)
 	h.MarkExhaustive("subst-exhaustive")
 	h.Sweep(t, h.P{Name: "subst-exhaustive"}, func(emit func(candCase)) {
+		emit = withArgs(emit)
 		for _, b := range honestBases(h.Seed+0x51, int(h.Seed%9), nb) {
 			b := b
 			famValid(&b, emit)
@@ -804,6 +873,7 @@ type randCase struct {
 	Edits   []edit // byte-level edits for the structural families
 	RSel    int
 	SSel    int
+	Args    uint64
 }
 
 type edit struct {
@@ -983,6 +1053,7 @@ func TestC06_Random(t *testing.T) {
 			RSel:   rapid.IntRange(0, 11).Draw(rt, "rSel"),
 			SSel:   rapid.IntRange(0, 11).Draw(rt, "sSel"),
 		}
+		rc.Args = drawArgs(rt)
 		ne := rapid.IntRange(1, 3).Draw(rt, "nEdits")
 		for i := 0; i < ne; i++ {
 			rc.Edits = append(rc.Edits, edit{
@@ -998,6 +1069,7 @@ func TestC06_Random(t *testing.T) {
 			rec.Label("skipped")
 			return nil
 		}
+		c.Args = rc.Args
 		rec.Label(keyKindNames[rc.KeyKind])
 		rec.Label("mode-%d", rc.Mode)
 		if err := checkCand(c, rec); err != nil {
